@@ -101,6 +101,7 @@ func Facts(f *hc.Facts) {
 		}
 	}
 	dhFacts(f)
+	TLFacts(f)
 }
 
 // dhFacts: crypto.CheckDHParams as the ordered list of its InRange tests (which value against
